@@ -108,6 +108,13 @@ func c19Messages(quick bool) []string {
 		out = append(out, fmt.Sprintf(`{"jsonrpc":"2.0","method":%q,"params":%s}`, methods[j%len(methods)], v))
 	}
 	out = append(out, `{"jsonrpc":"2.0","id":1,"method":"m"}`, `{"jsonrpc":"2.0","method":"m"}`, `{"jsonrpc":"2.0","id":1,"error":{"code":-1,"message":""}}`)
+	// large payloads: sizes around the usual reader buffer boundaries (4 KiB, 64 KiB) and beyond,
+	// as one JSON string and as an array of many small members
+	for _, n := range []int{4000, 4096, 4097, 65000, 65529, 65530, 65536, 65537, 70000, 300000, 1 << 20} {
+		big := strings.Repeat("x", n)
+		out = append(out, fmt.Sprintf(`{"jsonrpc":"2.0","method":"notifications/message","params":{"level":"info","data":"%s"}}`, big))
+		out = append(out, fmt.Sprintf(`{"jsonrpc":"2.0","id":%d,"result":{"content":[{"type":"text","text":"%s"}]}}`, n, big))
+	}
 	return out
 }
 
